@@ -200,6 +200,8 @@ static void real_run(int run, vt::rng& g, int iters)
     T width = T(g.range(1, 50)) / T(1000);
     std::size_t N = 400;
     long count = 0;
+    bool zero_now = false;
+    int zero_it = 2 + (int) g.below(3); // one iteration (not the first) samples only zeros
     hep::vegas_pdf<T> const* curpdf = nullptr;
     auto fn = [&](hep::vegas_point<T> const& p) {
         T x = p.point()[0];
@@ -214,6 +216,7 @@ static void real_run(int run, vt::rng& g, int iters)
         }
         // sharply peaked, but without tails that underflow in T: a smoothed value that underflows to zero makes the
         // damped importance jump from ~1/|ln r|^alpha to 0, which is a property of the number format, not of the code
+        if (zero_now) return T();
         T d = (x - peak) / width;
         return d * d > T(400) ? T() : T(1) / (T(1) + d * d);
     };
@@ -225,7 +228,15 @@ static void real_run(int run, vt::rng& g, int iters)
     {
         auto pdf = chk.pdf();
         curpdf = &pdf;
+        zero_now = it == zero_it;
         chk = hep::vegas(integrand, std::vector<std::size_t>{N}, chk, hep::callback<C>(hep::callback_mode::silent));
+        if (zero_now)
+        {
+            // an iteration whose sampled values are all zero leaves the grid as it was: the grid the checkpoint hands to the next
+            // iteration is the grid this iteration sampled with (bit for bit)
+            vt::ev("ZeroIter").i("run", run).i("it", it).i("usedId", grid_id(chk.results().back().pdf())).i("nextId", grid_id(chk.pdf()))
+                .i("nz", (long long) chk.results().back().non_zero_calls()).emit();
+        }
         // the grid that the *next* iteration will use must be the refinement of this one
         ref_step("run", 1000 + run, it, chk.results().back().pdf(), chk.alpha(), chk.results().back().adjustment_data());
     }
